@@ -177,9 +177,9 @@ theorem rv_fields (isa : Isa) (w : BitVec 32) (σ : State isa.xlen) :
     finding of C06 (`known_findings.d/C06.json`), EBREAK excepted (no register/memory effect is the
     reference behaviour).  The second theorem makes the list exact: adding a binding breaks it. -/
 def noSemantics : List (Isa × Mn) :=
-  [(.rv32, .EBREAK), (.rv64, .EBREAK),
-   (.rv64, .LWU), (.rv64, .LD), (.rv64, .SD), (.rv64, .ADDIW), (.rv64, .SLLIW), (.rv64, .SRLIW), (.rv64, .SRAIW),
-   (.rv64, .ADDW), (.rv64, .SUBW), (.rv64, .SLLW), (.rv64, .SRLW), (.rv64, .SRAW)]
+  -- (the RV64 W-forms and LWU/LD/SD were in this list until their `i_` functions were added to
+  --  rv64i/asm.py by `fix:` commits; the translated bodies are now compared with `expected` like the rest)
+  [(.rv32, .EBREAK), (.rv64, .EBREAK)]
 
 def genOk (isa : Isa) (m : Mn) : Bool :=
   if noSemantics.contains (isa, m) then (Generated.Rv.generated isa m).isNone
